@@ -407,15 +407,134 @@ theorem updateDir_of_fits {v : Vol} {count : Nat} {s : St} {loc : Loc} {extra : 
     simp only [↓reduceIte]
     exact ⟨_, rfl, rfl, rfl, rfl, rfl, rfl⟩
 
+
+/-! ## the I/O error branches of the model are dead -/
+
+theorem growChain_no_eio {v : Vol} {count : Nat} (hv : VolOK v count) {fat : List Nat} {hint : Nat} {b : List Nat} {bytes : Nat}
+    {rest : List (List Nat)} (inv : FatRep v.p count fat (b :: rest)) {e : Err}
+    (h : growChain v fat hint b bytes = .error e) : e = .noSpace := by
+  have hbpc : 0 < v.bpc := by have := hv.bpc; omega
+  have hbne : b ≠ [] := (inv.chain b (by simp)).ne
+  unfold growChain at h
+  split at h
+  · simp at h
+  · rename_i hgt
+    split at h
+    · rename_i l r hl ha
+      split at h
+      · simp at h
+      · rename_i hh
+        exfalso
+        have hpos : 0 < numClus v.bpc (bytes - b.length * v.bpc) := numClus_pos _ _ hbpc (by omega)
+        obtain ⟨_, hlen⟩ := allocate_preserves hv.params inv hint v.bound _ hv.bound hpos r ha
+        cases hc : r.clusters with
+        | nil => rw [hc] at hlen; simp at hlen; omega
+        | cons x xs => rw [hc] at hh; simp at hh
+    · rename_i _ hl
+      exfalso
+      exact hbne (List.getLast?_eq_none_iff.mp hl)
+    · simp only [Except.error.injEq] at h; exact h.symm
+
+theorem updateDir_no_eio {v : Vol} {count : Nat} (hv : VolOK v count) {s : St} {loc : Loc} {ex : Option Nat} {extra : List (List Nat)}
+    (h : InvX v count s ex extra) (hloc : HLoc s.nodes loc) {e : Err}
+    (hu : updateDir v s s.nodes loc = .error e) : e = .noSpace := by
+  unfold updateDir at hu
+  cases loc with
+  | root =>
+    simp only at hu
+    split at hu
+    · split at hu
+      · simp only [Except.error.injEq] at hu; exact hu.symm
+      · simp at hu
+    · rename_i hfix
+      have hfix' : v.fixedRoot = false := by simpa using hfix
+      split at hu
+      · rename_i e' hg
+        simp only [Except.error.injEq] at hu
+        subst hu
+        have hrne := h.rootChain hfix'
+        have p1 : (extra ++ own s.rootChain s.nodes).Perm (s.rootChain :: (extra ++ own [] s.nodes)) := by
+          rw [own_root, opt_of_ne hrne]
+          exact List.perm_middle
+        exact growChain_no_eio hv (fatRep_perm p1 h.rep) hg
+      · simp at hu
+  | node d =>
+    obtain ⟨hd, hddir⟩ := hloc
+    simp only at hu
+    split at hu
+    · rename_i e' hg
+      simp only [Except.error.injEq] at hu
+      subst hu
+      have hdne := h.dirs d hd hddir
+      have p1 : (extra ++ own s.rootChain s.nodes).Perm (d.chain :: (extra ++ own s.rootChain (s.nodes.erase d))) := by
+        have := own_erase s.rootChain hd
+        rw [opt_of_ne hdne] at this
+        exact (List.Perm.append_left extra this).trans List.perm_middle
+      exact growChain_no_eio hv (fatRep_perm p1 h.rep) hg
+    · simp at hu
+
+theorem writeChain_no_eio {v : Vol} {count : Nat} (hv : VolOK v count) {fat : List Nat} {hint : Nat} {f : Node} {pos n : Nat}
+    {rest : List (List Nat)} (inv : FatRep v.p count fat (opt f.chain ++ rest)) (hs : Shape v.bpc f) (_hn : 0 < n) {e : Err}
+    (h : writeChain v fat hint f.chain f.size pos n = .error e) : e = .noSpace := by
+  have hbpc : 0 < v.bpc := by have := hv.bpc; omega
+  unfold writeChain at h
+  rcases hs with ⟨hc, _⟩ | ⟨hc, hlen⟩
+  · rw [hc] at h
+    simp only at h
+    split at h
+    · simp only [Except.error.injEq] at h; exact h.symm
+    · simp at h
+  · cases hcc : f.chain with
+    | nil => exact absurd hcc hc
+    | cons x xs =>
+      rw [hcc] at h inv
+      simp only at h
+      split at h
+      · -- the cursor lies inside the chain
+        rename_i hci
+        exfalso
+        have hp' : min pos f.size ≤ f.size := Nat.min_le_right _ _
+        have hcur : Model.FatIO.seekCursor v.bpc f.size pos = Model.FatIO.seekCursor v.bpc f.size (min pos f.size) := by
+          unfold Model.FatIO.seekCursor
+          simp [Nat.min_assoc]
+        have hL : (x :: xs).length = max 1 (cn v.bpc f.size) := by rw [← hcc, hlen, numClus_eq _ _ hbpc]
+        have hsizeL : f.size ≤ (x :: xs).length * v.bpc :=
+          (cn_le_iff v.bpc f.size _ hbpc).mp (by rw [hL]; exact Nat.le_max_right _ _)
+        have := cursor_index_lt v.bpc f.size (min pos f.size) (x :: xs).length hbpc hp' hsizeL (by simp)
+        rw [← hcur] at this
+        omega
+      · split at h
+        · simp at h
+        · rename_i hgrow
+          split at h
+          · rename_i l r hl ha
+            split at h
+            · simp at h
+            · rename_i hh
+              exfalso
+              have hpos : 0 < numClus v.bpc
+                  ((Model.FatIO.seekCursor v.bpc f.size pos).coffpos + n -
+                    ((x :: xs).length - (Model.FatIO.seekCursor v.bpc f.size pos).cindex) * v.bpc) :=
+                numClus_pos _ _ hbpc (by omega)
+              rw [opt_of_ne (by simp)] at inv
+              obtain ⟨_, hlen2⟩ := allocate_preserves hv.params inv hint v.bound _ hv.bound hpos r ha
+              cases hc2 : r.clusters with
+              | nil => rw [hc2] at hlen2; simp only [List.length_nil] at hlen2; omega
+              | cons y ys => rw [hc2] at hh; simp at hh
+          · rename_i _ hl
+            simp at hl
+          · simp only [Except.error.injEq] at h; exact h.symm
+
 /-! ## the operations -/
 
 /-- what every call guarantees: the invariant afterwards, and after out-of-space the same tree, sizes and chains -/
 def Good (v : Vol) (count : Nat) (s : St) (out : St × Res) : Prop :=
   Inv v count out.1 ∧ (Proofs.FsRefine.Soft out.2 → out.1.nodes = s.nodes ∧ out.1.rootChain = s.rootChain) ∧
-    (Sync s → Sync out.1) ∧ (ShapeNodes v.bpc s.nodes → ShapeNodes v.bpc out.1.nodes)
+    (Sync s → Sync out.1) ∧ (ShapeNodes v.bpc s.nodes → ShapeNodes v.bpc out.1.nodes) ∧
+    (ShapeNodes v.bpc s.nodes → out.2 ≠ .err .eio)
 
-theorem good_same {v : Vol} {count : Nat} {s : St} (h : Inv v count s) (r : Res) : Good v count s (s, r) :=
-  ⟨h, fun _ => ⟨rfl, rfl⟩, fun hs => hs, fun hs => hs⟩
+theorem good_same {v : Vol} {count : Nat} {s : St} (h : Inv v count s) (r : Res) (hr : r ≠ .err .eio) : Good v count s (s, r) :=
+  ⟨h, fun _ => ⟨rfl, rfl⟩, fun hs => hs, fun hs => hs, fun _ => hr⟩
 
 theorem shape_append {b : Nat} {nodes : List Node} {n : Node} (h : ShapeNodes b nodes) (hn : n.isDir = false → Shape b n) :
     ShapeNodes b (nodes ++ [n]) := by
@@ -611,12 +730,12 @@ theorem removeEntry_good {v : Vol} {count : Nat} (hv : VolOK v count) {s : St} (
     exact hsh x (List.mem_of_mem_erase hx) hxd
   split
   · rename_i hc
-    refine ⟨?_, fun hs => absurd hs (not_soft_ok _), fun hs => ⟨by rw [e5, e1]; exact hs.fat, hdisk hs⟩, hshape⟩
+    refine ⟨?_, fun hs => absurd hs (not_soft_ok _), fun hs => ⟨by rw [e5, e1]; exact hs.fat, hdisk hs⟩, hshape, fun _ => by simp⟩
     have : opt n.chain = [] := by simp [opt, hc]
     rw [this] at hi2
     exact hi2
   · rename_i hc
-    refine ⟨?_, fun hs => absurd hs (not_soft_ok _), fun hs => ⟨rfl, hdisk hs⟩, hshape⟩
+    refine ⟨?_, fun hs => absurd hs (not_soft_ok _), fun hs => ⟨rfl, hdisk hs⟩, hshape, fun _ => by simp⟩
     have hrep := release_rep hv.params hi2.rep hc
     exact ⟨hi2.tree, by simpa [flush, release] using hrep, release_hint n.chain hi2.hintOK, hi2.rootFixed, hi2.rootChain, hi2.dirs, hi2.fitsRoot, hi2.fitsDir⟩
 
@@ -630,18 +749,18 @@ theorem create_good {v : Vol} {count : Nat} (hv : VolOK v count) {s : St} (h : I
     (path : List Nat) (slots : Nat) (wipe : Bool) : Good v count s (create v s path slots wipe) := by
   unfold create
   cases hsl : splitLast path with
-  | none => exact good_same h _
+  | none => exact good_same h _ (by decide)
   | some dk =>
     obtain ⟨dir, k⟩ := dk
     have hp : path = dir ++ [k] := (splitLast_some path dir k).mp hsl
     subst hp
     simp only
     cases hr : resolve s.nodes dir with
-    | none => exact good_same h _
+    | none => exact good_same h _ (by decide)
     | some ploc =>
       simp only
       by_cases hpd : ploc.isDir = true
-      case neg => simp only [hpd, Bool.not_false, ↓reduceIte]; exact good_same h _
+      case neg => simp only [hpd, Bool.not_false, ↓reduceIte]; exact good_same h _ (by decide)
       case pos =>
         simp only [hpd, Bool.not_true, Bool.false_eq_true, ↓reduceIte]
         have hl := resolve_sound h.tree dir ploc hr
@@ -655,12 +774,15 @@ theorem create_good {v : Vol} {count : Nat} (hv : VolOK v count) {s : St} (h : I
           have hx' : InvX v count { s with nodes := s.nodes ++ [⟨dir ++ [k], ploc.id, k, false, [], 0, slots⟩] } (some ploc.id) [] :=
             hx.congr rfl rfl rfl rfl
           split
-          · exact good_same h _
+          · rename_i e hu
+            have he := updateDir_no_eio hv hx' ((hloc_of_locAt hl hpd).mono (fun d hd _ => List.mem_append_left _ hd)) hu
+            exact good_same h _ (by rw [he]; decide)
           · rename_i s2 hu
             have := (updateDir_inv hv hx' ((hloc_of_locAt hl hpd).mono (fun d hd _ => List.mem_append_left _ hd)) hu).1
             exact ⟨flush_inv this, fun hs => absurd hs (not_soft_ok _),
               fun hs => sync_flush_update hs (by rfl) hu (others_append s.nodes ⟨dir ++ [k], ploc.id, k, false, [], 0, slots⟩ ploc.id rfl),
-              fun hsh => (shape_updateDir hu hpd (shape_append (n := ⟨dir ++ [k], ploc.id, k, false, [], 0, slots⟩) hsh (fun _ => Or.inl ⟨rfl, rfl⟩)) : ShapeNodes v.bpc s2.nodes)⟩
+              fun hsh => (shape_updateDir hu hpd (shape_append (n := ⟨dir ++ [k], ploc.id, k, false, [], 0, slots⟩) hsh (fun _ => Or.inl ⟨rfl, rfl⟩)) : ShapeNodes v.bpc s2.nodes),
+              fun _ => by simp⟩
         | some n =>
           obtain ⟨hn, hnp⟩ := Proofs.FsRefine.find_path hf
           have hnpar : n.parent = ploc.id := by
@@ -668,10 +790,10 @@ theorem create_good {v : Vol} {count : Nat} (hv : VolOK v count) {s : St} (h : I
             exact (child_some hc).2.1
           simp only
           by_cases hnd : n.isDir = true
-          · simp only [hnd, ↓reduceIte]; exact good_same h _
+          · simp only [hnd, ↓reduceIte]; exact good_same h _ (by decide)
           · simp only [hnd, Bool.false_eq_true, ↓reduceIte]
             cases wipe with
-            | false => simp only [Bool.not_false, ↓reduceIte]; exact good_same h _
+            | false => simp only [Bool.not_false, ↓reduceIte]; exact good_same h _ (by decide)
             | true =>
               simp only [Bool.not_true, Bool.false_eq_true, ↓reduceIte]
               have hnd' : n.isDir = false := by simpa using hnd
@@ -708,7 +830,8 @@ theorem create_good {v : Vol} {count : Nat} (hv : VolOK v count) {s : St} (h : I
               rw [hu]
               exact ⟨flush_inv hi2, fun hs => absurd hs (not_soft_ok _),
                 fun hs => sync_flush_update hs hs1d hu (others_replace _ _ _ _ hnpar hnpar),
-                fun hsh => (shape_updateDir hu hpd (shape_replace (o := n) (n := ⟨n.path, n.parent, n.key, false, [], 0, n.slots⟩) hsh (fun _ => Or.inl ⟨rfl, rfl⟩)) : ShapeNodes v.bpc s2.nodes)⟩
+                fun hsh => (shape_updateDir hu hpd (shape_replace (o := n) (n := ⟨n.path, n.parent, n.key, false, [], 0, n.slots⟩) hsh (fun _ => Or.inl ⟨rfl, rfl⟩)) : ShapeNodes v.bpc s2.nodes),
+                fun _ => by simp⟩
 
 /-- a cluster of an owned chain is not zero and not in any other owned chain -/
 theorem fresh_clusters {p : Params} {count : Nat} {fat : List Nat} {a : List Nat} {chains : List (List Nat)}
@@ -727,28 +850,28 @@ theorem makedir_good {v : Vol} {count : Nat} (hv : VolOK v count) {s : St} (h : 
   have hbpc : 0 < v.bpc := by have := hv.bpc; omega
   unfold makedir
   cases hsl : splitLast path with
-  | none => exact good_same h _
+  | none => exact good_same h _ (by decide)
   | some dk =>
     obtain ⟨dir, k⟩ := dk
     have hp : path = dir ++ [k] := (splitLast_some path dir k).mp hsl
     subst hp
     simp only
     cases hr : resolve s.nodes dir with
-    | none => exact good_same h _
+    | none => exact good_same h _ (by decide)
     | some ploc =>
       simp only
       by_cases hpd : ploc.isDir = true
-      case neg => simp only [hpd, Bool.not_false, ↓reduceIte]; exact good_same h _
+      case neg => simp only [hpd, Bool.not_false, ↓reduceIte]; exact good_same h _ (by decide)
       case pos =>
         simp only [hpd, Bool.not_true, Bool.false_eq_true, ↓reduceIte]
         have hl := resolve_sound h.tree dir ploc hr
         rw [child_eq_find h.tree dir k ploc hr hpd]
         cases hf : s.nodes.find? (fun n => n.path == dir ++ [k]) with
-        | some n => exact good_same h _
+        | some n => exact good_same h _ (by decide)
         | none =>
           simp only
           cases ha : allocate v.p s.fat s.hint v.bound (numClus v.bpc 64) with
-          | none => exact good_same h _
+          | none => exact good_same h _ (by decide)
           | some r =>
             simp only
             have hpos := numClus_pos v.bpc 64 hbpc (by omega)
@@ -775,7 +898,10 @@ theorem makedir_good {v : Vol} {count : Nat} (hv : VolOK v count) {s : St} (h : 
                   rw [← e]; exact clus_mem (h.dirs d hd hdd))⟩)
             split
             · -- the parent could not be written: the new cluster is released again
-              refine ⟨?_, fun _ => ⟨rfl, rfl⟩, fun hs => ?_, fun hsh => hsh⟩
+              rename_i e hu
+              have he := updateDir_no_eio hv (hx.congr rfl rfl rfl rfl)
+                ((hloc_of_locAt hl hpd).mono (fun d hd _ => List.mem_append_left _ hd)) hu
+              refine ⟨?_, fun _ => ⟨rfl, rfl⟩, fun hs => ?_, fun hsh => hsh, fun _ => by rw [he]; simp⟩
               · have := free_preserves hv.params inv2
                 exact ⟨h.tree, by simpa [release] using this,
                   release_hint r.clusters (alloc_hint hv.params h.hintOK ha (Or.inl (inv2.chain r.clusters (by simp)))),
@@ -793,7 +919,8 @@ theorem makedir_good {v : Vol} {count : Nat} (hv : VolOK v count) {s : St} (h : 
                 ((hloc_of_locAt hl hpd).mono (fun d hd _ => List.mem_append_left _ hd)) hu).1
               exact ⟨flush_inv this, fun hs => absurd hs (not_soft_ok _),
                 fun hs => sync_flush_update hs (by rfl) hu (others_append s.nodes ⟨dir ++ [k], ploc.id, k, true, r.clusters, 0, slots⟩ ploc.id rfl),
-                fun hsh => (shape_updateDir hu hpd (shape_append (n := ⟨dir ++ [k], ploc.id, k, true, r.clusters, 0, slots⟩) hsh (fun hf => by cases hf)) : ShapeNodes v.bpc s2.nodes)⟩
+                fun hsh => (shape_updateDir hu hpd (shape_append (n := ⟨dir ++ [k], ploc.id, k, true, r.clusters, 0, slots⟩) hsh (fun hf => by cases hf)) : ShapeNodes v.bpc s2.nodes),
+                fun _ => by simp⟩
 
 /-- the directory part of a resolving path is a directory of the tree, different from the entry itself -/
 theorem parent_loc {nodes : List Node} (h : TreeInv nodes) {dir : List Nat} {k : Nat} {n : Node} {ploc : Loc}
@@ -832,7 +959,7 @@ theorem remove_good {v : Vol} {count : Nat} (hv : VolOK v count) {s : St} (h : I
     (path : List Nat) : Good v count s (remove v s path) := by
   unfold remove
   cases hsl : splitLast path with
-  | none => exact good_same h _
+  | none => exact good_same h _ (by decide)
   | some dk =>
     obtain ⟨dir, k⟩ := dk
     have hp : path = dir ++ [k] := (splitLast_some path dir k).mp hsl
@@ -841,19 +968,19 @@ theorem remove_good {v : Vol} {count : Nat} (hv : VolOK v count) {s : St} (h : I
     split
     · rename_i n ploc hrn hrp
       split
-      · exact good_same h _
+      · exact good_same h _ (by decide)
       · rename_i hnd
         obtain ⟨hn, _⟩ := resolve_node h.tree _ n hrn
         obtain ⟨hloc, _, _, hpar⟩ := parent_loc h.tree hrn hrp
         exact removeEntry_good hv h ploc n hn (fun hd => absurd hd hnd) hloc hpar
-    · exact good_same h _
-    · exact good_same h _
+    · exact good_same h _ (by decide)
+    · exact good_same h _ (by decide)
 
 theorem removedir_good {v : Vol} {count : Nat} (hv : VolOK v count) {s : St} (h : Inv v count s)
     (path : List Nat) : Good v count s (removedir v s path) := by
   unfold removedir
   cases hsl : splitLast path with
-  | none => exact good_same h _
+  | none => exact good_same h _ (by decide)
   | some dk =>
     obtain ⟨dir, k⟩ := dk
     have hp : path = dir ++ [k] := (splitLast_some path dir k).mp hsl
@@ -862,17 +989,17 @@ theorem removedir_good {v : Vol} {count : Nat} (hv : VolOK v count) {s : St} (h 
     split
     · rename_i n ploc hrn hrp
       split
-      · exact good_same h _
+      · exact good_same h _ (by decide)
       · split
-        · exact good_same h _
+        · exact good_same h _ (by decide)
         · rename_i hany
           obtain ⟨hn, _⟩ := resolve_node h.tree _ n hrn
           obtain ⟨hloc, _, _, hpar⟩ := parent_loc h.tree hrn hrp
           refine removeEntry_good hv h ploc n hn (fun _ x hx e => hany ?_) hloc hpar
           rw [List.any_eq_true]
           exact ⟨x, hx, by simp [e]⟩
-    · exact good_same h _
-    · exact good_same h _
+    · exact good_same h _ (by decide)
+    · exact good_same h _ (by decide)
 
 /-- a file entry is rewritten in place (new chain, new size), the FAT already updated: the parent is
     rewritten without a change to the FAT and the invariant holds again -/
@@ -901,7 +1028,7 @@ theorem fwrite_good {v : Vol} {count : Nat} (hv : VolOK v count) {s : St} (h : I
     (path : List Nat) (pos n : Nat) : Good v count s (fwrite v s path pos n) := by
   unfold fwrite
   cases hsl : splitLast path with
-  | none => exact good_same h _
+  | none => exact good_same h _ (by decide)
   | some dk =>
     obtain ⟨dir, k⟩ := dk
     have hp : path = dir ++ [k] := (splitLast_some path dir k).mp hsl
@@ -910,16 +1037,19 @@ theorem fwrite_good {v : Vol} {count : Nat} (hv : VolOK v count) {s : St} (h : I
     split
     · rename_i f ploc hrn hrp
       split
-      · exact good_same h _
+      · exact good_same h _ (by decide)
       · rename_i hfd
         have hfd' : f.isDir = false := by simpa using hfd
         obtain ⟨hf, _⟩ := resolve_node h.tree _ f hrn
         obtain ⟨_, hpd, hl, hpar⟩ := parent_loc h.tree hrn hrp
         split
-        · exact ⟨flush_inv h, fun _ => ⟨rfl, rfl⟩, sync_flush, fun hsh => hsh⟩
+        · exact ⟨flush_inv h, fun _ => ⟨rfl, rfl⟩, sync_flush, fun hsh => hsh, fun _ => by simp⟩
         · rename_i hn0
           split
-          · exact ⟨flush_inv h, fun _ => ⟨rfl, rfl⟩, sync_flush, fun hsh => hsh⟩
+          · rename_i e hw
+            exact ⟨flush_inv h, fun _ => ⟨rfl, rfl⟩, sync_flush, fun hsh => hsh, fun hsh => by
+              rw [writeChain_no_eio hv (fatRep_perm (own_erase s.rootChain hf) (by simpa using h.rep)) (hsh f hf hfd') (by omega) hw]
+              simp⟩
           · rename_i fat hint chain hw
             have hrep := writeChain_rep hv (fatRep_perm (own_erase s.rootChain hf) (by simpa using h.rep)) (by omega) hw
             obtain ⟨s2, hu, hi2, hsy, hshp⟩ := replace_then_update h f { f with chain := chain, size := max f.size (min pos f.size + n) } hf hfd'
@@ -935,9 +1065,9 @@ theorem fwrite_good {v : Vol} {count : Nat} (hv : VolOK v count) {s : St} (h : I
                 exact Or.inr ⟨h1, h2⟩)
             simp only at hu ⊢
             rw [hu]
-            exact ⟨hi2, fun hs => absurd hs (not_soft_ok _), hsy, hshp⟩
-    · exact good_same h _
-    · exact good_same h _
+            exact ⟨hi2, fun hs => absurd hs (not_soft_ok _), hsy, hshp, fun _ => by simp⟩
+    · exact good_same h _ (by decide)
+    · exact good_same h _ (by decide)
 
 theorem take_getLast_none {c : List Nat} {k : Nat} (hk : 1 ≤ k) (hc : k < c.length) : (c.take k).getLast? ≠ none := by
   intro e
@@ -950,7 +1080,7 @@ theorem ftrunc_good {v : Vol} {count : Nat} (hv : VolOK v count) {s : St} (h : I
     (path : List Nat) (m : Nat) : Good v count s (ftrunc v s path m) := by
   unfold ftrunc
   cases hsl : splitLast path with
-  | none => exact good_same h _
+  | none => exact good_same h _ (by decide)
   | some dk =>
     obtain ⟨dir, k⟩ := dk
     have hp : path = dir ++ [k] := (splitLast_some path dir k).mp hsl
@@ -959,7 +1089,7 @@ theorem ftrunc_good {v : Vol} {count : Nat} (hv : VolOK v count) {s : St} (h : I
     split
     · rename_i f ploc hrn hrp
       split
-      · exact good_same h _
+      · exact good_same h _ (by decide)
       · rename_i hfd
         have hfd' : f.isDir = false := by simpa using hfd
         obtain ⟨hf, _⟩ := resolve_node h.tree _ f hrn
@@ -969,7 +1099,10 @@ theorem ftrunc_good {v : Vol} {count : Nat} (hv : VolOK v count) {s : St} (h : I
         · -- grow
           rename_i hgt
           split
-          · exact ⟨flush_inv h, fun _ => ⟨rfl, rfl⟩, sync_flush, fun hsh => hsh⟩
+          · rename_i e hw
+            exact ⟨flush_inv h, fun _ => ⟨rfl, rfl⟩, sync_flush, fun hsh => hsh, fun hsh => by
+              rw [writeChain_no_eio hv hown (hsh f hf hfd') (by omega) hw]
+              simp⟩
           · rename_i fat hint chain hw
             have hrep := writeChain_rep hv hown (by omega) hw
             obtain ⟨s2, hu, hi2, hsy, hshp⟩ := replace_then_update h f { f with chain := chain, size := m } hf hfd'
@@ -987,7 +1120,7 @@ theorem ftrunc_good {v : Vol} {count : Nat} (hv : VolOK v count) {s : St} (h : I
                 exact h2)
             simp only at hu ⊢
             rw [hu]
-            exact ⟨hi2, fun hs => absurd hs (not_soft_ok _), hsy, hshp⟩
+            exact ⟨hi2, fun hs => absurd hs (not_soft_ok _), hsy, hshp, fun _ => by simp⟩
         · -- shrink or same size
           rename_i hngt
           have hb0 : 0 < v.bpc := by have := hv.bpc; omega
@@ -1024,7 +1157,7 @@ theorem ftrunc_good {v : Vol} {count : Nat} (hv : VolOK v count) {s : St} (h : I
                   have := trunc_len v.bpc hb0 f m (hsh f hf hfd') hmle
                   simpa only [hcut, and_self, ↓reduceIte] using this)
               rw [hu]
-              exact ⟨hi2, fun hs => absurd hs (not_soft_ok _), hsy, hshp⟩
+              exact ⟨hi2, fun hs => absurd hs (not_soft_ok _), hsy, hshp, fun _ => by simp⟩
           · simp only [hcut, ↓reduceIte]
             obtain ⟨s2, hu, hi2, hsy, hshp⟩ := replace_then_update h f { f with chain := f.chain, size := m } hf hfd'
               ⟨rfl, rfl, rfl, rfl, rfl, fun hd => by rw [hfd'] at hd; cases hd⟩ s rfl rfl hown h.hintOK ploc (hloc_of_locAt hl hpd) rfl hpar
@@ -1032,9 +1165,9 @@ theorem ftrunc_good {v : Vol} {count : Nat} (hv : VolOK v count) {s : St} (h : I
                 have := trunc_len v.bpc hb0 f m (hsh f hf hfd') hmle
                 simpa only [hcut, ↓reduceIte] using this)
             rw [hu]
-            exact ⟨hi2, fun hs => absurd hs (not_soft_ok _), hsy, hshp⟩
-    · exact good_same h _
-    · exact good_same h _
+            exact ⟨hi2, fun hs => absurd hs (not_soft_ok _), hsy, hshp, fun _ => by simp⟩
+    · exact good_same h _ (by decide)
+    · exact good_same h _ (by decide)
 
 /-- **every call keeps the invariant, and a call that ends in out-of-space changes neither tree nor chains** -/
 theorem step_good {v : Vol} {count : Nat} (hv : VolOK v count) {s : St} (h : Inv v count s) (op : Op) :
@@ -1074,6 +1207,6 @@ theorem run_shape {v : Vol} {count : Nat} (hv : VolOK v count) (ops : List Op) :
   | cons op rest ih =>
     intro s h hs
     simp only [run, List.foldl_cons]
-    exact ih _ (step_good hv h op).1 ((step_good hv h op).2.2.2 hs)
+    exact ih _ (step_good hv h op).1 ((step_good hv h op).2.2.2.1 hs)
 
 end Proofs.FsInv
